@@ -877,8 +877,65 @@ structure WfFunc (f : Func) : Prop where
   kwd : ∀ k, k ∈ f.kwdefaults.map Prod.fst → k ∈ f.kwonly
   kwdNodup : (f.kwdefaults.map Prod.fst).Nodup
 
-theorem wfFB_fromFunc {f : Func} (wf : WfFunc f) : WfFB (FB.fromFunc f) :=
-  ⟨names_sub_nodup (fb := FB.fromFunc f) wf.nodup, wf.len, wf.kwd, wf.kwdNodup⟩
+/-- on a well-formed function `getfullargspec` reports the whole of `__kwdefaults__` -/
+theorem kwdOf_eq_of_wf {f : Func} (wf : WfFunc f) : kwdOf f = f.kwdefaults := by
+  unfold kwdOf
+  rw [List.filter_eq_self]
+  intro p hp
+  have := wf.kwd p.1 (List.mem_map_of_mem hp)
+  simpa [keyIn] using this
+
+theorem get?_filter_keyIn {α : Type} {ns : List Name} {p : Name} (hp : p ∈ ns) (l : List (Name × α)) :
+    get? p (l.filter (keyIn ns)) = get? p l := by
+  induction l with
+  | nil => rfl
+  | cons q r ih =>
+    obtain ⟨k, v⟩ := q
+    by_cases hk : k ∈ ns
+    · have : keyIn ns (k, v) = true := by simpa [keyIn] using hk
+      rw [List.filter_cons_of_pos this, get?_cons, get?_cons, ih]
+    · have : ¬ keyIn ns (k, v) = true := by simpa [keyIn] using hk
+      rw [List.filter_cons_of_neg this, ih, get?_cons, if_neg (fun (e : k = p) => hk (e ▸ hp))]
+
+/-- the annotation of every parameter is reported -/
+theorem get?_annOf {f : Func} {p : Name} (hp : p ∈ paramNames f) : get? p (annOf f) = get? p f.ann :=
+  get?_filter_keyIn hp f.ann
+
+/-- the default of every keyword-only parameter is reported -/
+theorem kwAttach_kwdOf (f : Func) : kwAttach f.kwonly (kwdOf f) = kwAttach f.kwonly f.kwdefaults := by
+  unfold kwAttach kwdOf
+  apply List.map_congr_left
+  intro k hk
+  rw [get?_filter_keyIn hk]
+
+theorem wfFB_fromFunc {f : Func} (wf : WfFunc f) : WfFB (FB.fromFunc f) := by
+  have hk := kwdOf_eq_of_wf wf
+  refine ⟨names_sub_nodup (fb := FB.fromFunc f) wf.nodup, wf.len, ?_, ?_⟩
+  · show ∀ k, k ∈ (kwdOf f).map Prod.fst → k ∈ f.kwonly
+    rw [hk]; exact wf.kwd
+  · show ((kwdOf f).map Prod.fst).Nodup
+    rw [hk]; exact wf.kwdNodup
+
+/-- the builder starts from the function's own signature -/
+theorem fromFunc_kwSig (f : Func) : (FB.fromFunc f).kwSig = (sigOf f).kwonly := kwAttach_kwdOf f
+
+theorem fromFunc_posSig (f : Func) : (FB.fromFunc f).posSig = (sigOf f).pos := rfl
+
+theorem paramNames_of_sigOf {w f : Func} (h : sigOf w = sigOf f) : paramNames w = paramNames f := by
+  have ha : w.args = f.args := by
+    have := congrArg (fun s => s.pos.map Prod.fst) h
+    simpa [sigOf, attach_names] using this
+  have hk : w.kwonly = f.kwonly := by
+    have := congrArg (fun s => s.kwonly.map Prod.fst) h
+    simpa [sigOf, kwAttach_names] using this
+  have hva : w.varargs = f.varargs := congrArg Sig.varargs h
+  have hvk : w.varkw = f.varkw := congrArg Sig.varkw h
+  unfold paramNames
+  rw [ha, hk, hva, hvk]
+
+theorem sigOf_fromFunc (f : Func) (ident : Nat) (wrapped : Option Nat) :
+    sigOf ((FB.fromFunc f).toFunc ident wrapped) = sigOf f := by
+  rw [sigOf_toFunc, fromFunc_kwSig]; rfl
 
 /-! ### whole `injected` / `expected` lists -/
 
